@@ -89,6 +89,25 @@ def run(ctx):
     ctx.tlc('http/ReqId.tla', _mc_cfg(2, 2), workers=8, timeout=1800)
     ctx.tlc('http/ReqId.tla', _mc_cfg(2, 2, 9999), workers=8, timeout=1800)
     ctx.tlc('http/ReqId.tla', _mc_cfg(3, 1 if ctx.quick else 2), workers=16, timeout=3600)
+    # 1b. ReqId implements the abstraction ReqIdInd (TLC, refinement mapping numbers <- Numbers, dup <- ~Unique) ...
+    for nt, reqs in (((2, 2),) if ctx.quick else ((2, 2), (3, 2))):       # (the standard own / failing choices name second requests)
+        ctx.tlc('http/ReqIdRef.tla', _mc_cfg(nt, reqs).replace('PROPERTY AllDone\n', 'PROPERTY Refines\nINVARIANT AbsSafety\nINVARIANT AbsIndInv\n'),
+                workers=8, timeout=1800)
+    # ... for which Apalache proves an inductive invariant: safety in every reachable state of 3 threads x 2 requests with
+    # any sets of caller supplied / failing requests, not only up to the depth TLC explores (thorough tier)
+    if not ctx.quick:
+        import apalache
+        mod = os.path.join(os.path.dirname(os.path.dirname(os.path.abspath(sched.__file__))), 'specs', 'http', 'ReqIdInd.tla')
+        steps = []
+        try:
+            for init, inv, length in (('Init', 'IndInv', 0), ('IndInit', 'IndInv', 1), ('IndInit', 'Safety', 0)):
+                ok, secs, tail = apalache.check(mod, init, inv, length, ctx.tmp)
+                steps.append({'init': init, 'inv': inv, 'length': length, 'ok': ok, 'wall_s': round(secs, 1)})
+                if not ok:
+                    raise Machinery('Apalache refutes the inductive invariant of ReqIdInd (%s => %s):\n%s' % (init, inv, tail))
+        except apalache.ApalacheError as e:
+            raise Machinery(str(e))
+        ctx.extra['apalache_inductive_invariant'] = steps
     # 2. all schedules of the real code, each execution recorded
     conn_http._HttpConnImpl._make_opener = staticmethod(lambda is_https, if_http_debug=False: None)
     holder = {}
